@@ -38,6 +38,9 @@ type SOp struct {
 type C11Case struct {
 	MaxInFlight int     `json:"max_in_flight"`
 	Expired     bool    `json:"expired"` // timeout -1s instead of 1h
+	// Short: timeout 50us, and the programs may contain "sleep" (400us of real time): events that are buffered
+	// when their push returns and stale by the time another worker's Maintain, push or Close looks at them
+	Short bool `json:"short,omitempty"`
 	Progs       [][]SOp `json:"progs"`
 	Reenter     string  `json:"reenter,omitempty"` // "", maintain, push, close
 	Schedule    []int   `json:"schedule"`
@@ -48,6 +51,9 @@ func (c C11Case) Describe() string {
 	to := "1h"
 	if c.Expired {
 		to = "-1s"
+	}
+	if c.Short {
+		to = "50us"
 	}
 	fmt.Fprintf(&b, "maxInFlight=%d timeout=%s stream re-enters with %q\n", c.MaxInFlight, to, c.Reenter)
 	for i, p := range c.Progs {
@@ -207,6 +213,9 @@ func runSchedule(c C11Case) c11result {
 	if c.Expired {
 		timeout = -time.Second
 	}
+	if c.Short {
+		timeout = 50 * time.Microsecond
+	}
 	r, err := libaudit.NewReassembler(c.MaxInFlight, timeout, st)
 	if err != nil {
 		return c11result{violation: "NewReassembler: " + err.Error()}
@@ -232,6 +241,8 @@ func runSchedule(c C11Case) c11result {
 					_ = r.Maintain()
 				case "close":
 					ru.close(r)
+				case "sleep":
+					time.Sleep(400 * time.Microsecond)
 				}
 			}
 			if !s.freeRun.Load() {
@@ -363,12 +374,21 @@ var c11Types = []uint16{1300, 1300, 1302, 1327, 1100, eoe}
 
 func genC11(rt *rapid.T) C11Case {
 	c := C11Case{MaxInFlight: rapid.IntRange(0, 2).Draw(rt, "maxInFlight"), Expired: rapid.IntRange(0, 3).Draw(rt, "expired") == 0}
+	if !c.Expired && rapid.IntRange(0, 3).Draw(rt, "short") == 0 {
+		c.Short = true
+		c.MaxInFlight = rapid.IntRange(1, 3).Draw(rt, "maxInFlightShort")
+	}
 	c.Reenter = rapid.SampledFrom([]string{"", "", "maintain", "push", "close", "pusheoe", "pushdone"}).Draw(rt, "reenter")
 	nw := rapid.IntRange(2, 3).Draw(rt, "workers")
 	for i := 0; i < nw; i++ {
 		var p []SOp
 		for j, n := 0, rapid.IntRange(1, 3).Draw(rt, "nops"); j < n; j++ {
-			switch rapid.IntRange(0, 9).Draw(rt, "kind") {
+			kind := rapid.IntRange(0, 9).Draw(rt, "kind")
+			if c.Short && j > 0 && kind >= 8 {
+				p = append(p, SOp{K: "sleep"})
+				continue
+			}
+			switch kind {
 			case 0, 1:
 				p = append(p, SOp{K: "maintain"})
 			case 2, 3:
@@ -404,6 +424,8 @@ type catEntry struct {
 
 func c11Catalogue() []catEntry {
 	return []catEntry{
+		{"short: push,sleep | maintain | close", C11Case{MaxInFlight: 2, Short: true, Progs: [][]SOp{{P(1, 1300), {K: "sleep"}}, {opM}, {opC}}}},
+		{"short: push,push,sleep | push,maintain,close", C11Case{MaxInFlight: 3, Short: true, Progs: [][]SOp{{P(1, 1300), P(2, 1300), {K: "sleep"}}, {P(3, 1300), opM, opC}}}},
 		{"push,push | push,eoe", C11Case{MaxInFlight: 1, Progs: [][]SOp{{P(1, 1300), P(1, 1327)}, {P(2, 1300), P(1, eoe)}}}},
 		{"push,push | maintain,close", C11Case{MaxInFlight: 1, Progs: [][]SOp{{P(1, 1300), P(2, 1327)}, {opM, opC}}}},
 		{"push,push | close | close", C11Case{MaxInFlight: 0, Progs: [][]SOp{{P(1, 1300), P(2, 1300)}, {opC}, {opC}}}},
